@@ -183,6 +183,18 @@ func checks() map[string]*Check {
 		Rule:   "the harness is built with -race; runs are real-time clusters on the simulated network (deep-copying) and on the bundled gRPC transport, with many goroutines calling every public method (submissions of all types, Status, Configuration, AddServer/RemoveServer, Bootstrap on a running node, Stop/Restart on the same object, crash+restart) across leader changes, snapshots (slow state machine) and shutdowns. Race reports are read from the detector's log files; a report whose two accesses both lie in the library is a violation, de-duplicated by the pair of innermost library functions",
 		Assume: []string{"the race detector only reports races on interleavings that happened; a clean run is not race freedom", "reports with a harness-only stack on one side are harness errors and are listed separately"}})
 
+	add(&Check{ID: "C18", Level: "exploration", Props: []string{"C18"},
+		Runs: []RunSpec{
+			{Scen: "api.single", Quick: 64, Thorough: 3000},
+			{Scen: "api.cluster", Quick: 48, Thorough: 3000},
+			{Scen: "api.stopstorm", Params: "rounds=120", Quick: 8, Thorough: 200},
+			{Scen: "w2.bounce", Quick: 8, Thorough: 200},
+			{Scen: "w1", Params: "snapshots=1,crash=1,reads=1", Quick: 32, Thorough: 800},
+		},
+		NT:     func(r *Result) bool { return cnt(r, "api.calls") > 5 || r.Scen == "w2.bounce" || r.Scen == "w1" },
+		Rule:   "each run = one seed-determined sequence of public API calls (NewRaft with boundary options, Bootstrap variants, Start/Stop/Restart in any order and repetition, Status, Configuration, String of every state and operation type, submissions of all types incl. an invalid one with nil/empty/large payloads and 0/tiny/normal timeouts, AddServer/RemoveServer of self/unknown/duplicate ids, Await twice) against a single node or a 3-node cluster whose target node was driven into leader / follower / pre-candidate / candidate / shutdown / deposed leader, with concurrent cluster activity; every call runs under panic capture and a hang watchdog, every future is timed, and a committed membership change must resolve its future without retrying. A panic in a library goroutine kills the child and is reported from its stderr",
+		Assume: []string{"hang bound: 20 s + 5 s with two goroutine dumps; a machine stall > 1 s makes the run inconclusive instead", "future slack 2 s"}})
+
 	storeAssume := []string{
 		"crash model: process death — every completed write(2) persists, in order; images are synthesised by replaying the strace-recorded syscalls (self-validated: the full replay must be byte-identical to the directory the workload left)",
 		"byte prefixes of a write: all when <= 128 bytes, else the first/last 8 and every 64th",
